@@ -80,18 +80,22 @@ def intervals : List Rat → List (Rat × Rat)
   | a :: b :: l => (a, b) :: intervals (b :: l)
   | _ => []
 
+/-- the part of the line between the parameters `lo < hi` (both inside the grid): `(pixel flat index, Δt)` per sub-segment
+    between consecutive grid-plane crossings; the pixel is the one containing the midpoint of the sub-segment -/
+def losSeg (shape : List Nat) (s e : List Rat) (lo hi : Rat) : List (Nat × Rat) :=
+  let cr := ((s.zip e).map fun se =>
+    if se.2 - se.1 = 0 then [] else crossings se.1 (se.2 - se.1) lo hi).flatten
+  let ts := ([lo] ++ cr.mergeSort (fun a b => a ≤ b) ++ [hi])
+  (intervals ts).map fun ab =>
+    let tm := (ab.1 + ab.2) / 2
+    let pix := (s.zip e).map fun se => (se.1 + tm * (se.2 - se.1)).floor.toNat
+    (ravel shape pix, ab.2 - ab.1)
+
 /-- LOS weights for one line: `(pixel flat index, Δt)`; the physical length is `Δt · ‖(e−s)·dist‖` -/
 def losRow (shape : List Nat) (s e : List Rat) : List (Nat × Rat) :=
   match clipBox shape s e with
   | none => []
-  | some (lo, hi) =>
-    let cr := ((s.zip e).map fun se =>
-      if se.2 - se.1 = 0 then [] else crossings se.1 (se.2 - se.1) lo hi).flatten
-    let ts := ([lo] ++ cr.mergeSort (fun a b => a ≤ b) ++ [hi])
-    (intervals ts).map fun ab =>
-      let tm := (ab.1 + ab.2) / 2
-      let pix := (s.zip e).map fun se => (se.1 + tm * (se.2 - se.1)).floor.toNat
-      (ravel shape pix, ab.2 - ab.1)
+  | some (lo, hi) => losSeg shape s e lo hi
 
 /-- LOSResponse(domain, starts, ends), σ = 0, in line-parameter units; starts/ends in physical coordinates -/
 def losCoo (shape : List Nat) (dist : List Rat) (starts ends : List (List Rat)) : Coo Rat :=
